@@ -3,7 +3,7 @@ import json
 from gen import common, sysattr
 from gen.sysattr import FIXED, hexn
 
-LEAN_MODULE = ["XcmModel.Props.C10", "XcmModel.Props.Funcs"]
+LEAN_MODULE = ["XcmModel.Props.C10", "XcmModel.Props.Funcs", "XcmModel.Props.AttrTree"]
 THEOREMS = [
     "XcmModel.C10.C10_table_safe", "XcmModel.C10.nodeGet_good", "XcmModel.C10.C10_get_within_capacity",
     "XcmModel.C10.C10_rc_is_written", "XcmModel.C10.C10_typed_within_capacity",
@@ -11,6 +11,7 @@ THEOREMS = [
     "XcmModel.C10.C10_set_rejects_without_effect", "XcmModel.C10.C10_names_total",
     "XcmModel.FuncsTie.valid_set_attr_len_tie",
     "XcmModel.FuncsTie.is_special_tie",
+    "XcmModel.AttrTreeProps.lookup_add_value_same", "XcmModel.AttrTreeProps.lookup_add_unrelated", "XcmModel.AttrTreeProps.listed_is_found", "XcmModel.AttrTreeProps.found_is_listed",
 ]
 
 CAP_APIS = ["get", "get_notype", "getf", "str", "bin", "getf_str", "getf_bin"]
@@ -272,6 +273,10 @@ def run_names(ctx, exe):
             ctx.violation("sys_attr:diff:name", "name %r parses but implementation reports %s" % (nm[:80], f[1]),
                           {"harness": "sys_attr", "ops": ["E tcp", "%s client %s" % (k, hexn(nm))], "impl_out": r})
 
+    # the attribute tree itself (attr_tree.c / attr_node.c)
+    from gen import attrtree as _attrtree
+    _attrtree.run_part(ctx, 40 if ctx.tier == "quick" else 1500, label="c10attrtree")
+    ctx.rule += " unit_attrtree: the real nested attribute tree (attr_tree.c + attr_node.c + attr_path.c, built with the library\'s own add functions) vs the flat Lean AttrTree model: lookups of existing names, prefixes, kind-confused, out-of-range and malformed names, list lengths and the get-all listing on generated trees."
 
 def replay(path):
     r = json.load(open(path))
